@@ -61,6 +61,40 @@ class TbState:
 
     def transfer_for(self, func, collect):
         def tr(e, c, pos):
+            out = []
+            for (g2, u2, l2) in self._tr(func, collect, e, c, pos):
+                out.append((g2, u2, l2))
+            return out
+        return tr
+
+    @staticmethod
+    def _makes_generator(t):
+        return isinstance(t, dict) and any(n2.get('k') == 'call' and 'make_unique<TBGenerator<TTStorage' in (n2.get('n') or '') or
+                                           (n2.get('k') == 'new' and 'TBGenerator<TTStorage' in (n2.get('t') or '')) for n2 in walk(t))
+
+    def _tr(self, func, collect, e, c, pos):
+        g, u, loc = c
+        k = e.get('k')
+        # a generator over the shared ttStorage built into a LOCAL variable: the bytes of an installed table are
+        # overwritten by its generate(), so an installed complete table must be considered partial from here on
+        if k == 'decl':
+            for v in e.get('vars', []):
+                if self._makes_generator(v.get('init')):
+                    return [('C' if g == 'G' else g, u, 'C')]
+        if k == 'call':
+            n = cname(e)
+            last = n.split('::')[-1]
+            recv = e.get('recv')
+            if recv is not None and self.is_gen(recv) and last == 'operator=':
+                a = (e.get('args') or [None])[0]
+                if isinstance(a, dict) and any(n2.get('k') == 'var' and n2.get('vk') == 'local' and 'TBGenerator' in (n2.get('t') or '') for n2 in walk(a)) \
+                        and loc is not None:
+                    return [(loc, u, None)]
+        res = self._tr0(func, collect, e, (g, u), pos)
+        return [(g2, u2, loc) for (g2, u2) in res]
+
+    def _tr0(self, func, collect, e, c, pos):
+        if True:
             g, u = c
             k = e.get('k')
             if k == 'call':
@@ -91,16 +125,27 @@ class TbState:
                 if recv is not None and recv.get('k') == 'this' and e.get('f'):
                     callee = self.fb.funcs.get(e['f'])
                     if callee is not None and callee.has_cfg and callee.d.get('cls') == TT and not callee.d.get('const'):
-                        return sorted(self.summary(callee).get(c, {c}))
+                        return sorted({(x[0], x[1]) for x in self.summary(callee).get((c[0], c[1], None), {(c[0], c[1], None)})})
                 return [c]
             if k == 'ret' and collect:
                 self.ret_states.append((func, pos, e, c))
             if k == 'asg' and self.is_gen(e.get('l')):
                 return [('C', u), ('N', u)]
             return [c]
-        return tr
 
     def refine(self, cond, truth, c):
+        g, u, loc = c
+        out = []
+        e0, pol0 = strip_not(cond)
+        if isinstance(e0, dict) and e0.get('k') == 'call' and cname(e0).split('::')[-1] == 'generate' and e0.get('recv') is not None:
+            rp = ap(e0['recv']) or ''
+            if rp != 'this.tbGen->' and loc is not None:
+                return [(g, u, 'G' if truth == pol0 else 'C')]
+        for (g2, u2) in self._refine0(cond, truth, (g, u)):
+            out.append((g2, u2, loc))
+        return out
+
+    def _refine0(self, cond, truth, c):
         g, u = c
         e, pol = strip_not(cond)
         if isinstance(e, dict) and e.get('k') == 'call':
@@ -130,7 +175,7 @@ class TbState:
             return {}
         self.busy.add(func.key)
         s = {}
-        for c0 in [(g0, u0) for g0 in 'NCG' for u0 in 'FR?']:
+        for c0 in [(g0, u0, None) for g0 in 'NCG' for u0 in 'FR?']:
             fl = Flow(func, self.transfer_for(func, False), self.refine).run({c0})
             s[c0] = set(fl.at_exit) or {c0}
         self.busy.discard(func.key)
@@ -162,9 +207,9 @@ def c1_typestate(fb, rep):
             us, tsz = fb.field(TT + '::usedSize'), fb.field(TT + '::tableSize')
             same0 = bool(us and tsz and isinstance(us.get('init'), dict) and isinstance(tsz.get('init'), dict) and
                          us['init'].get('cv') is not None and us['init'].get('cv') == tsz['init'].get('cv'))
-            entry = {('N', 'F' if same0 else '?')}     # in-class initialisers: usedSize == tableSize
+            entry = {('N', 'F' if same0 else '?', None)}     # in-class initialisers: usedSize == tableSize
         else:
-            entry = set(TbState.INV)
+            entry = {(a, b, None) for (a, b) in TbState.INV}
         ts.ret_states = []
         fl = Flow(f, ts.transfer_for(f, True), ts.refine).run(entry)
         if fl.overflow:
@@ -180,8 +225,8 @@ def c1_typestate(fb, rep):
         n = 0
         for (pos, ln), states in sorted(by_ret.items(), key=lambda kv: (-kv[0][0][0], kv[0][0][1])):
             n += 1
-            bad = sorted(s for s in states if s not in TbState.INV)
-            what = {'C': 'a constructed-but-not-generated (partial) generator is installed',
+            bad = sorted({(s[0], s[1]) for s in states if (s[0], s[1]) not in TbState.INV})
+            what = {'C': 'a constructed-but-not-generated (partial) generator is installed, or the installed table\'s bytes were overwritten by another generator built over the shared storage',
                     'G': 'a generated table is installed but its region is not reserved (setUsedSize)',
                     'N': 'no generator is installed and the used size was not re-established'}
             rep.ob(clause, 'K3 generator typestate', '%s: exit #%d leaves (tbGen, region) in the class invariant' % (f.sname, n),
